@@ -195,3 +195,66 @@ contract(T, '_get_subitems', variant='array', props=['C01'],
              ('pieces-list-requested-rows-of-their-part', 'all(all(0 <= %s[j][r] and %s[j][r] < bounds[%s[j] + 1] - bounds[%s[j]] and any(item[k] == bounds[%s[j]] + %s[j][r] for k in range(len(item))) for r in range(len(%s[j]))) for j in range(len(%s)))' % (_PV, _PV, _PK, _PK, _PK, _PV, _PV, _PK)),
              ('pieces-increasing', 'all(all(%s[j][a] < %s[j][b] for a in range(len(%s[j])) for b in range(a + 1, len(%s[j]))) for j in range(len(%s)))' % (_PV, _PV, _PV, _PV, _PK)),
              ('every-requested-row-is-in-a-piece', 'all(any(any(bounds[%s[j]] + %s[j][r] == item[k] for r in range(len(%s[j]))) for j in range(len(%s))) for k in range(len(item)))' % (_PK, _PV, _PV, _PK))])
+
+# ---------------------------------------------------------------------------------------------------------
+# __getitem__ with an increasing index list / array.  Ghost field `read_idx`: the global row numbers read so far through _get_part
+# (the assumed backend contract records them); lemma L1 (Lean) turns "increasing + same members as item" into "equal to item".
+# ---------------------------------------------------------------------------------------------------------
+AFIELDS = dict(FIELDS, read_idx='list[int]')
+contract('<lib>', 'BaseEphysReader._get_part', variant='array', kind='assumed',
+    params={'self': 'obj[BaseEphysReader]', 'part_idx': 'int', 'subitem': 'arr[int]'}, fields=AFIELDS, modifies=['self.read_idx'],
+    requires=[('part-exists', '0 <= part_idx and part_idx + 1 < len(self.part_bounds)'),
+              ('rows-inside-part', 'all(0 <= subitem[r] and subitem[r] < self.part_bounds[part_idx + 1] - self.part_bounds[part_idx] for r in range(len(subitem)))')],
+    result='arr[elem]',
+    ensures=['len(result) == len(subitem)',
+             'all(result[r] == self.rows[self.part_bounds[part_idx] + subitem[r]] for r in range(len(subitem)))',
+             # ghost: the rows read, in order
+             'len(self.read_idx) == len(old(self.read_idx)) + len(subitem)',
+             'all(self.read_idx[a] == old(self.read_idx)[a] for a in range(len(old(self.read_idx))))',
+             'all(self.read_idx[len(old(self.read_idx)) + r] == self.part_bounds[part_idx] + subitem[r] for r in range(len(subitem)))'])
+
+_RI = 'self.read_idx'
+contract(T, 'BaseEphysReader.__getitem__', variant='array', props=['C01'],
+    params={'item': 'arr[int]'}, fields=AFIELDS, let=dict(GI_LET, n0='len(self.read_idx)'), modifies=['self.read_idx'],
+    requires=RWF + [('rows-exist', 'all(0 <= item[k] and item[k] < n for k in range(len(item)))'),
+                    ('rows-increasing', 'all(item[a] < item[b] for a in range(len(item)) for b in range(a + 1, len(item)))'),
+                    ('at-least-one-row', 'len(item) >= 1')],
+    result='arr[elem]', locals={'to_concat': 'blocks[elem]'},
+    loops={0: {'idx': 'k', 'seq': 'PS', 'invariant': [
+        ('one-block-per-piece', 'nblocks(to_concat) == k and 0 <= k and k <= len(dkeys(PS))'),
+        ('rows-read-so-far', 'len(flat(to_concat)) == len(%s) - n0 and n0 <= len(%s) and all(flat(to_concat)[r] == self.rows[%s[n0 + r]] for r in range(len(flat(to_concat))))' % (_RI, _RI, _RI)),
+        ('read-rows-increasing', 'all(%s[a] < %s[b] for a in range(n0, len(%s)) for b in range(a + 1, len(%s)))' % (_RI, _RI, _RI, _RI)),
+        ('read-rows-are-requested-rows-of-parts-done', 'all(any(item[i] == %s[a] for i in range(len(item))) and implies(k >= 1, %s[a] < self.part_bounds[dkeys(PS)[k - 1] + 1]) and k >= 1 for a in range(n0, len(%s)))' % (_RI, _RI, _RI)),
+        ('rows-of-pieces-done-are-read', 'all(all(any(%s[a] == self.part_bounds[dkeys(PS)[j]] + dvals(PS)[j][r] for a in range(n0, len(%s))) for r in range(len(dvals(PS)[j]))) for j in range(k))' % (_RI, _RI))]}},
+    cuts=[('out = np.vstack', 'read-rows-have-the-members-of-item', 'all(any(%s[a] == item[i] for a in range(n0, len(%s))) for i in range(len(item)))' % (_RI, _RI)),
+          ('out = np.vstack', 'let:RD', '%s[n0:]' % _RI),
+          ('out = np.vstack', 'read-part-as-a-list', 'len(RD) == len(%s) - n0 and all(RD[r] == %s[n0 + r] for r in range(len(RD)))' % (_RI, _RI)),
+          ('out = np.vstack', 'lemma:L1', '(RD, item)'),
+          ('out = np.vstack', 'rows-were-read-in-request-order', 'len(RD) == len(item) and all(RD[r] == item[r] for r in range(len(item)))')],
+    using={'rows-were-read-in-request-order': ['lemma:L1', 'read-part-as-a-list', 'read-rows-have-the-members-of-item', 'read-rows-increasing', 'read-rows-are-requested-rows-of-parts-done', 'rows-increasing']},
+    # "returns exactly the rows NumPy would return on the concatenated array"
+    ensures=[('row-count', 'len(result) == len(item)'),
+             ('rows-of-the-concatenation-after-deferred-ops', 'all(result[r] == ops_fold(self._ops, len(self._ops), self.rows[item[r]]) for r in range(len(item)))')])
+
+contract(T, 'BaseEphysReader.__getitem__', variant='tuple-array', props=['C01'],
+    params={'item': 'tuple[arr[int],elem]'}, fields=AFIELDS, let=dict(GI_LET, n0='len(self.read_idx)'), modifies=['self.read_idx'],
+    requires=RWF + [('rows-exist', 'all(0 <= item[0][k] and item[0][k] < n for k in range(len(item[0])))'),
+                    ('rows-increasing', 'all(item[0][a] < item[0][b] for a in range(len(item[0])) for b in range(a + 1, len(item[0])))'),
+                    ('at-least-one-row', 'len(item[0]) >= 1')],
+    result='arr[elem]', locals={'to_concat': 'blocks[elem]'},
+    loops={0: {'idx': 'k', 'seq': 'PS', 'invariant': [
+        ('one-block-per-piece', 'nblocks(to_concat) == k and 0 <= k and k <= len(dkeys(PS))'),
+        ('rows-read-so-far', 'len(flat(to_concat)) == len(%s) - n0 and n0 <= len(%s) and all(flat(to_concat)[r] == self.rows[%s[n0 + r]] for r in range(len(flat(to_concat))))' % (_RI, _RI, _RI)),
+        ('read-rows-increasing', 'all(%s[a] < %s[b] for a in range(n0, len(%s)) for b in range(a + 1, len(%s)))' % (_RI, _RI, _RI, _RI)),
+        ('read-rows-are-requested-rows-of-parts-done', 'all(any(item[i] == %s[a] for i in range(len(item))) and implies(k >= 1, %s[a] < self.part_bounds[dkeys(PS)[k - 1] + 1]) and k >= 1 for a in range(n0, len(%s)))' % (_RI, _RI, _RI)),
+        ('rows-of-pieces-done-are-read', 'all(all(any(%s[a] == self.part_bounds[dkeys(PS)[j]] + dvals(PS)[j][r] for a in range(n0, len(%s))) for r in range(len(dvals(PS)[j]))) for j in range(k))' % (_RI, _RI))]}},
+    cuts=[('out = np.vstack', 'read-rows-have-the-members-of-item', 'all(any(%s[a] == item[i] for a in range(n0, len(%s))) for i in range(len(item)))' % (_RI, _RI)),
+          ('out = np.vstack', 'let:RD', '%s[n0:]' % _RI),
+          ('out = np.vstack', 'read-part-as-a-list', 'len(RD) == len(%s) - n0 and all(RD[r] == %s[n0 + r] for r in range(len(RD)))' % (_RI, _RI)),
+          ('out = np.vstack', 'lemma:L1', '(RD, item)'),
+          ('out = np.vstack', 'rows-were-read-in-request-order', 'len(RD) == len(item) and all(RD[r] == item[r] for r in range(len(item)))')],
+    using={'rows-were-read-in-request-order': ['lemma:L1', 'read-part-as-a-list', 'read-rows-have-the-members-of-item', 'read-rows-increasing', 'read-rows-are-requested-rows-of-parts-done', 'rows-increasing']},
+    # "returns exactly the rows NumPy would return on the concatenated array"
+    # "optionally followed by a channel selector, returns exactly the rows and columns NumPy would return" (rows given as an index array)
+    ensures=[('row-count', 'len(result) == len(item[0])'),
+             ('rows-then-deferred-ops-then-columns', "all(result[r] == op_row('cols', item[1], %s) for r in range(len(item[0])))" % (_FOLD_SELF % 'self.rows[item[0][r]]'))])
